@@ -177,16 +177,10 @@ func c05Sessions(faultSide string) vs.Verdict {
 	if left := slices.Collect(s.Sessions()); len(left) != 0 {
 		f.failf("server-session-not-removed", "after shutdown the server still lists %d session(s)", len(left))
 	}
-	c.mu.Lock()
-	nc := len(c.sessions)
-	c.mu.Unlock()
-	if nc != 0 {
+	if nc, ok := privClientSessionCount(c); ok && nc != 0 {
 		f.failf("client-session-not-removed", "after shutdown the client still tracks %d session(s)", nc)
 	}
-	s.mu.Lock()
-	subs := len(s.toolChangeSubscriptions) + len(s.promptChangeSubscriptions) + len(s.resourceChangeSubscriptions)
-	s.mu.Unlock()
-	if subs != 0 {
+	if subs, ok := privListChangedSubscriptions(s); ok && subs != 0 {
 		f.failf("subscriptions-not-forgotten", "after shutdown the server still holds %d list-changed subscription(s)", subs)
 	}
 	st1, fin := evIndex(evs, "start tool"), evIndex(evs, "finish tool")
@@ -364,10 +358,7 @@ func c05SubscribeVsClose() vs.Verdict {
 	if left := slices.Collect(s.Sessions()); len(left) != 0 {
 		f.failf("server-session-not-removed", "after shutdown the server still lists %d session(s)", len(left))
 	}
-	s.mu.Lock()
-	subs := len(s.resourceSubscriptions[uri])
-	s.mu.Unlock()
-	if subs != 0 {
+	if subs, ok := privResourceSubscribers(s, uri); ok && subs != 0 {
 		f.failf("subscriptions-not-forgotten", "after shutdown the server still holds %d subscription(s) to %s", subs, uri)
 	}
 	return f.verdict(subRes)
@@ -507,16 +498,11 @@ func c05StreamableClient() vs.Verdict {
 	if left := slices.Collect(s.Sessions()); len(left) != 0 {
 		f.failf("server-session-not-removed", "after shutdown the server still lists %d session(s)", len(left))
 	}
-	h.mu.Lock()
-	nt := len(h.sessions)
-	h.mu.Unlock()
-	if nt != 0 {
+	if ids, ok := privHandlerSessionIDs(h); ok && len(ids) != 0 {
+		nt := len(ids)
 		f.failf("handler-table-not-emptied", "after shutdown the HTTP handler still holds %d session(s)", nt)
 	}
-	c.mu.Lock()
-	nc := len(c.sessions)
-	c.mu.Unlock()
-	if nc != 0 {
+	if nc, ok := privClientSessionCount(c); ok && nc != 0 {
 		f.failf("client-session-not-removed", "after shutdown the client still tracks %d session(s)", nc)
 	}
 	evs := vs.Events()
@@ -570,10 +556,8 @@ func c05StreamableClose() vs.Verdict {
 	if sid == "" || ss == nil {
 		return vs.Verdict{Bad: "no session", Sig: "c05 setup"}
 	}
-	h.mu.Lock()
-	info := h.sessions[sid]
-	h.mu.Unlock()
-	if info == nil {
+	info, infoOK := privHandlerSessionInfo(h, sid)
+	if infoOK && info == nil {
 		return vs.Verdict{Bad: "session not registered with the handler", Sig: "c05 setup"}
 	}
 	vs.Quiet(false)
@@ -629,10 +613,7 @@ func c05StreamableClose() vs.Verdict {
 		f.failf("session-not-forgotten", "after the close the server still lists %d sessions", n)
 	}
 	// every HTTP exchange of the session has ended and the session is closed: its idle timer must be gone
-	info.timerMu.Lock()
-	armed := info.timer != nil && info.timer.Stop()
-	info.timerMu.Unlock()
-	if armed {
+	if armed, ok := privIdleTimerStop(info); ok && armed {
 		f.failf("idle-timer-left-armed", "the session is closed and forgotten, yet its idle-timeout timer is still armed")
 	}
 	sort.Strings(outs)
@@ -696,9 +677,7 @@ func c05RootsBroadcastVsClose(closer string) vs.Verdict {
 			f.failf("surviving-session-told-"+fmt.Sprint(told[i])+"-times", "session %d stayed open throughout the broadcast and was sent %d roots/list_changed notifications, want 1 (told: %v)", i, told[i], told)
 		}
 	}
-	c.mu.Lock()
-	n := len(c.sessions)
-	c.mu.Unlock()
+	n, _ := privClientSessionCount(c)
 	if n != 2 {
 		f.failf("client-session-list", "after the close the client lists %d sessions, want 2", n)
 	}
